@@ -24,6 +24,7 @@ func genC17(tier string, r *core.Rand) C17Plan {
 	}
 	// the remote is the reference peer; about half of what it accepts it takes from an offset
 	pp := genC05(tier, r)
+	pp.Peer.Late = 0 // held mail is C05's arm
 	pp.Peer.Byzantine, pp.Peer.Mut, pp.Peer.EarlyFQ, pp.Peer.HastyFQ = false, nil, false, false
 	pp.Lib = sc.A
 	pp.Lib.Status, pp.Lib.Gzip = true, false
